@@ -8,7 +8,8 @@ for f in ('patch.diff', 'demo.diff', 'notes.md'):
     if os.path.exists(os.path.join(src, f)):
         shutil.copy(os.path.join(src, f), os.path.join(dst, f))
 m = json.load(open(os.path.join(src, 'meta.json')))
-m['demo_cmd'] = m.get('demo_cmd', '').replace('CARGO_TARGET_DIR=/tmp/wt-%s/target ' % m.get('property', ''), '')
+import re
+m['demo_cmd'] = re.sub(r'CARGO_TARGET_DIR=\S+ ', '', m.get('demo_cmd', ''))
 m['origin'] = 'independent sub-agent given only the property text and a scratch worktree'
 m['verified_by_me'] = ('tools/seed_verify.sh in a scratch worktree: demo.diff alone -> all tests pass; patch.diff alone -> the 98 '
                        'baseline tests pass (default and --features jit); patch.diff + demo.diff -> the demo tests fail; then '
